@@ -7,14 +7,14 @@ import "strings"
 func registerProps() {
 	propTable["C01"] = PropDef{
 		Title:       "Key-value read-after-write: every read returns the last successful write",
-		Rules:       []string{"R-TXN", "R-COMMIT", "R-ROWCOMPLETE", "R-READ-NULL", "R-READ-ONCE", "R-LIVE", "R-COLL", "R-ERRPROP", "R-EVT-ROW", "R-RMW", "R-ERR-OVERWRITE", "R-EXP", "R-FRESH-DECODE", "R-WRITE-PATH", "R-KEEP-NEEDS-ROW", "R-ERR-DROPPED"},
+		Rules:       []string{"R-TXN", "R-COMMIT", "R-ROWCOMPLETE", "R-READ-NULL", "R-READ-ONCE", "R-LIVE", "R-COLL", "R-ERRPROP", "R-EVT-ROW", "R-RMW", "R-ERR-OVERWRITE", "R-EXP", "R-FRESH-DECODE", "R-WRITE-PATH", "R-KEEP-NEEDS-ROW", "R-ERR-DROPPED", "R-INSERT-GUARD", "R-DROP"},
 		Scope:       map[string][]string{"R-RMW": {"WriteSubDoc", "SubdocInsert"}},
 		Explanation: "Decides necessary structural clauses, not the behaviour: (a) an operation that fails leaves the document as it was <= every row write runs on the handle of the one transaction (R-TXN) that the runner rolls back on every failing path and whose commit error is reported (R-COMMIT), and no statement error inside a transaction closure is dropped (R-ERRPROP) nor is a stored error replaced by a later step's before it was examined (R-ERR-OVERWRITE); (b) the last successful write is what is stored <= every body/tombstone/xattr statement assigns the complete row (R-ROWCOMPLETE) and the values bound into it are the operation's own (R-EVT-ROW); a read-modify-write of a body starts every attempt from a fresh read, so that what it stores is the document it last read plus its own change (R-RMW, sub-document writers); (c) missing if deleted <= the read helper maps a NULL body to the missing error (R-READ-NULL), read-side liveness tests use the body column (R-LIVE), reads are scoped to the receiver's collection (R-COLL). A read outside a transaction is one statement (R-READ-ONCE); the expiry a write stores does not depend on the supplied value being non-zero (R-EXP/e); maps decoded into inside a loop are fresh per iteration (R-FRESH-DECODE). An exported mutating entry point reports success only on paths that went through the document writer, except where the caller's own callback cancels (R-WRITE-PATH).",
 		NotDecided:  "equality of returned bytes/CAS/expiry with a model over arbitrary histories; JSON encode/decode; nil bodies passed to Set/Add; purge visibility; value-level control flow inside Update's callback handling.",
 	}
 	propTable["C02"] = PropDef{
 		Title:       "Optimistic concurrency: a CAS-conditional write succeeds iff the CAS is current",
-		Rules:       []string{"R-CAS", "R-RMW", "R-INSERT-GUARD", "R-TXN", "R-COMMIT", "R-FLAGS", "R-COLL", "R-MONO", "R-READ-CAS"},
+		Rules:       []string{"R-CAS", "R-RMW", "R-INSERT-GUARD", "R-TXN", "R-COMMIT", "R-FLAGS", "R-COLL", "R-MONO", "R-READ-CAS", "R-HLC"},
 		Explanation: "For each of the nine collection entry points with an expected-CAS parameter, every statement that writes body or xattrs is guarded inside the same transaction closure by a SQL conjunct cas = <expected> or by a Go comparison with documents.cas read through the transaction, decided by cut-reachability on the SSA control-flow graph (R-CAS); sub-document writers and Update loops write back with the CAS they read (R-RMW); a rejected write changes nothing because it shares the rolled-back transaction (R-TXN, R-COMMIT); insert semantics for CAS 0 / AddOnly are governed by the conflict guard (R-INSERT-GUARD) and the option flags are enforced (R-FLAGS). The CAS that is compared is read from the row of the receiver's own collection (R-COLL). A CAS value is never handed out twice, so equality with the expected CAS identifies one version (R-MONO).",
 		NotDecided:  "behaviour of real interleavings (rests on SQLite isolation and the bucket mutex, trusted); which error value is returned; the pinned CAS-free resurrection of a tombstone by AddOnly.",
 	}
@@ -50,13 +50,13 @@ func registerProps() {
 	}
 	propTable["C08"] = PropDef{
 		Title:       "Live feed: one faithful event per successful mutation, delivered in CAS order",
-		Rules:       []string{"R-EVT-1", "R-EVT-FEEDEVENT", "R-EVT-ROW", "R-EVT-CONV", "R-QUEUE", "R-ATOMIC-ENQ", "R-POST-ORDER", "R-FEEDMAP", "R-FEEDMAP-WRITERS", "R-SHARED-COPY", "R-INSERT-GUARD", "R-HLC", "R-FEED-DELIVER", "R-POST-ALWAYS"},
+		Rules:       []string{"R-EVT-1", "R-EVT-FEEDEVENT", "R-EVT-ROW", "R-EVT-CONV", "R-QUEUE", "R-ATOMIC-ENQ", "R-POST-ORDER", "R-FEEDMAP", "R-FEEDMAP-WRITERS", "R-SHARED-COPY", "R-INSERT-GUARD", "R-HLC", "R-FEED-DELIVER", "R-POST-ALWAYS", "R-FEED-STOPPERS"},
 		Explanation: "The post function is never reachable from inside a transaction and each call of it is guarded by 'transaction error is nil' and 'event is non-nil' (R-EVT-1); mutation/deletion FeedEvents are built only by the one converter, whose fields are computed from exactly the corresponding event fields (R-EVT-FEEDEVENT, R-EVT-CONV); for every write unit each event field is the value bound into (or scanned back from) the row in the same transaction (R-EVT-ROW); queues are FIFO (R-QUEUE); commit and enqueue share a critical section and nothing that can block precedes the enqueue (R-ATOMIC-ENQ, R-POST-ORDER); registry entries are only ever extended by appending a new feed (R-FEEDMAP-WRITERS); events go to the writer's own collection's feeds, shared by all handles (R-FEEDMAP, R-SHARED-COPY); a refused insert leaves without an event (R-INSERT-GUARD). CAS order is commit order because the CAS is drawn inside the transaction closure, under the bucket mutex (R-HLC/CALL).",
 		NotDecided:  "delivery itself (goroutine scheduling), xattr framing bytes, exactly-once at run time.",
 	}
 	propTable["C09"] = PropDef{
 		Title:       "Backfill is a faithful snapshot and joins the live stream without a gap",
-		Rules:       []string{"R-BACKFILL", "R-BACKFILL-GAP", "R-EVT-CONV", "R-COLL", "R-BACKFILL-COND", "R-EVT-FEEDEVENT"},
+		Rules:       []string{"R-BACKFILL", "R-BACKFILL-GAP", "R-EVT-CONV", "R-COLL", "R-BACKFILL-COND", "R-EVT-FEEDEVENT", "R-FEEDMAP-WRITERS", "R-CHECKPOINT"},
 		Explanation: "The snapshot is taken whenever the arguments ask for it (R-BACKFILL-COND) and the live fan-out hands every event to every registered feed without filtering on event or feed state (R-EVT-FEEDEVENT). The backfill statement ranges over exactly the receiver's rows with cas >= start (tombstones included), ordered by cas, and its Scan fills every event field from the column that mirrors it, through the same converter as live events (R-BACKFILL, R-EVT-CONV, R-COLL); snapshot and live registration must form one critical section (R-BACKFILL-GAP). The values scanned from a backfill row are copies, not views into the driver's row buffer (R-BACKFILL).",
 		NotDecided:  "that the snapshot equals the contents at a linearisation point; the interleaving of queued live events with backfill events at run time; begin/end marker placement beyond what R-BACKFILL-GAP's function shape implies.",
 	}
@@ -68,13 +68,13 @@ func registerProps() {
 	}
 	propTable["C11"] = PropDef{
 		Title:       "Collections (and buckets) are isolated from one another",
-		Rules:       []string{"R-COLL", "R-KEYSPACE", "R-DROP", "R-FEEDMAP", "R-EXP-SQL", "R-DSN", "R-LASTID", "R-UNIQUE-LOOKUP", "R-VIEW", "R-EXP"},
+		Rules:       []string{"R-COLL", "R-KEYSPACE", "R-DROP", "R-FEEDMAP", "R-EXP-SQL", "R-DSN", "R-LASTID", "R-UNIQUE-LOOKUP", "R-VIEW", "R-EXP", "R-FEEDMAP-WRITERS", "R-OPENMODE"},
 		Explanation: "Complete for SQL-mediated state: every statement variant of every collection method constrains every collection-owned table it ranges over (ownership from schema.sql foreign keys) to the receiver's id (R-COLL, R-KEYSPACE, R-EXP-SQL); dropping is keyed by scope and name, cascades through every ownership foreign key (enforced: _foreign_keys=1, R-DSN) and ids are never reused (R-DROP); feeds are registered and stopped under the collection's own name and the shared registry is never replaced (R-FEEDMAP). A collection's id is the id of the row its own INSERT created (R-LASTID).",
 		NotDecided:  "caller-supplied SQL beyond the keyspace envelope; CreateIndex (bucket-wide by documentation).",
 	}
 	propTable["C12"] = PropDef{
 		Title:       "A non-stale view query equals the map function applied to the current documents",
-		Rules:       []string{"R-VIEW", "R-VIEW-MARK", "R-COLL", "R-DROP", "R-ONE-TXN", "R-TXN", "R-VIEW-PARAMS", "R-HLC", "R-FRESH-DECODE", "R-VIEW-STALE", "R-LASTID", "R-UNIQUE-LOOKUP"},
+		Rules:       []string{"R-VIEW", "R-VIEW-MARK", "R-COLL", "R-DROP", "R-ONE-TXN", "R-TXN", "R-VIEW-PARAMS", "R-HLC", "R-FRESH-DECODE", "R-VIEW-STALE", "R-LASTID", "R-UNIQUE-LOOKUP", "R-FILTER-RESULT"},
 		Explanation: "The incremental index update selects documents above the last indexed CAS, which is complete only if CAS order is commit order: the CAS is drawn inside the transaction closure under the bucket mutex (R-HLC/CALL). Every honoured query option is still read (R-VIEW-PARAMS). In the index-update closure the obsolete-row delete and the re-map select use the same comparator on documents.cas and the same bound mark, and the view's mark is set to the collection mark read through the same transaction (R-VIEW, R-TXN); every transaction that changes a document advances the collection mark (R-VIEW-MARK); the row query orders by (mapped.key, documents.key) in one direction with the range operators paired to min/max (R-VIEW); the compiled map function is reused from the cache only when its source is unchanged (R-VIEW); replacing a design document is one transaction whose delete precedes the inserts (R-VIEW, R-ONE-TXN); index rows are scoped and cascade (R-COLL, R-DROP). The map function's input is decoded into fresh variables for every document (R-FRESH-DECODE). The index is brought up to date before the rows are read unless one of the documented stale values was given (R-VIEW-STALE); the index window has no upper CAS bound (R-VIEW).",
 		NotDecided:  "JavaScript map/reduce evaluation, the collation function, parameter post-processing in sg-bucket.",
 	}
@@ -99,13 +99,13 @@ func registerProps() {
 	}
 	propTable["C16"] = PropDef{
 		Title:       "Feeds terminate cleanly and independently",
-		Rules:       []string{"R-DONE", "R-FEED-START", "R-LOOPVAR", "R-QUEUE", "R-SHUTDOWN", "R-FEEDMAP", "R-FEEDMAP-WRITERS", "R-GUARDED", "R-WAIT-LOCK", "R-REGISTRY", "R-POST-ALWAYS", "R-FEED-STOPPERS"},
+		Rules:       []string{"R-DONE", "R-FEED-START", "R-LOOPVAR", "R-QUEUE", "R-SHUTDOWN", "R-FEEDMAP", "R-FEEDMAP-WRITERS", "R-GUARDED", "R-WAIT-LOCK", "R-REGISTRY", "R-POST-ALWAYS", "R-FEED-STOPPERS", "R-FEED-DELIVER"},
 		Explanation: "The feed loop closes its done channel by a deferred close guarded only by 'channel is non-nil', starts its terminator goroutine whenever a terminator is given, and calls the callback only for non-nil events; per-collection done channels are fresh, passed to their feed, and coalesced by one goroutine that does not capture a loop variable (R-DONE, R-LOOPVAR); every started feed is registered or has its end marker (R-FEED-START); close wakes the puller (R-QUEUE); shutdown walks the shared registry before closing the database (R-SHUTDOWN); stopping a collection's feeds touches only its own registry entry (R-FEEDMAP); the registry is accessed under the bucket mutex (R-GUARDED). Registry entries are only appended to, never edited in place (R-FEEDMAP-WRITERS); no lock needed by the feed goroutine is held while waiting for it (R-WAIT-LOCK); a closed queue yields nothing (R-QUEUE). Deleting the bucket shuts the shared store (feeds, timer) down first, whatever the state of the calling handle (R-REGISTRY).",
 		NotDecided:  "actual goroutine exit, starvation under load.",
 	}
 	propTable["C17"] = PropDef{
 		Title:       "Revision sequence number counts the mutations of a key",
-		Rules:       []string{"R-REV", "R-ROWCOMPLETE", "R-EVT-ROW", "R-BACKFILL", "R-EVT-CONV", "R-COLL", "R-EVT-FEEDEVENT"},
+		Rules:       []string{"R-REV", "R-ROWCOMPLETE", "R-EVT-ROW", "R-BACKFILL", "R-EVT-CONV", "R-COLL", "R-EVT-FEEDEVENT", "R-INSERT-GUARD"},
 		Explanation: "In every write unit the value bound to revSeqNo is (the row's revSeqNo read through the same transaction, or 0 when there is no row) + 1, on every path (R-REV); every kind of write unit assigns the column (R-ROWCOMPLETE); the event carries the same term (R-EVT-ROW/revSeqNo) and the converter and backfill map it to RevNo (R-EVT-CONV, R-BACKFILL); the virtual xattrs format the revSeqNo of their own SELECT (R-REV). The revision number that is incremented is read from the row of the receiver's collection (R-COLL); the keys-only copy of a feed event is a copy of the whole event, RevNo included (R-EVT-FEEDEVENT).",
 		NotDecided:  "numbering across purge/re-create histories beyond 'absent row counts from 0'.",
 	}
@@ -124,7 +124,7 @@ func registerProps() {
 	}
 	propTable["C20"] = PropDef{
 		Title:       "Shutdown is safe: no panic, deadlock or leaked goroutine at any timing",
-		Rules:       []string{"R-LOCK-PAIR", "R-LOCK-ORDER", "R-GUARDED", "R-TXN-READS", "R-SHUTDOWN", "R-CLOSED", "R-FEEDMAP", "R-BG-PANIC", "R-TIMER", "R-DONE", "R-LOOPVAR", "R-WAIT-LOCK", "R-COMMIT", "R-REGISTRY"},
+		Rules:       []string{"R-LOCK-PAIR", "R-LOCK-ORDER", "R-GUARDED", "R-TXN-READS", "R-SHUTDOWN", "R-CLOSED", "R-FEEDMAP", "R-BG-PANIC", "R-TIMER", "R-DONE", "R-LOOPVAR", "R-WAIT-LOCK", "R-COMMIT", "R-REGISTRY", "R-FEED-START", "R-NIL-ROW"},
 		Explanation: "No lock is left held on any path (R-LOCK-PAIR); the lock-order graph computed from must-hold locksets and transitive may-acquire summaries is acyclic (R-LOCK-ORDER) and nothing inside a transaction re-enters the bucket mutex (R-TXN-READS); maps and the closed flag are accessed under their mutex (R-GUARDED: a concurrent map access is a fatal error); shutdown order (R-SHUTDOWN); the DB handle is never reset and is used only behind the closed test (R-CLOSED); the feed registry is never replaced (R-FEEDMAP); no explicit panic is reachable from a goroutine root or timer callback except the converter's assertions (R-BG-PANIC); the done channel of a feed is closed once (R-DONE, R-LOOPVAR: a second close panics in a library goroutine); only one expiry timer is ever pending, so stop() cancels it (R-TIMER). No lock needed by a goroutine is held while waiting for that goroutine to close a channel (R-WAIT-LOCK). The runner touches the transaction object only after a successful Begin (R-COMMIT).",
 		NotDecided:  "absence of goroutine leaks and of run-time panics in general (nil dereferences, index errors); timing.",
 	}
